@@ -479,6 +479,12 @@ var failingCores = []string{
 	"(let [ty9 1] (def ty9 \"s\"))", "(let [ty9 1] (mdef ty9 tz9 (list 1)))",
 }
 
+// texts with a syntax error in the middle and more forms behind it
+var failingParseCores = []string{"(+ 1 2)) (def leaked9 99)", "(def q9 1] (def leaked9 9)", "(list 1 2)) (defn leakf9 [] 1)", "(+ 1 2) } (def leaked9 1)", "(quote (a \\ b \\ c)) (def leaked9 2)", "[1 2)) (def leaked9 3)"}
+
+// forms that fail on a file that does not parse (the file is on the scenario's simulated disk)
+var failingFileCores = []string{"(include \"bad9.zy\")", "(source \"bad9.zy\")", "(source [\"bad9.zy\"])", "(include \"bad9.zy\" \"bad9.zy\")", "(req bad9)"}
+
 // failing forms that define something before they fail (the definition legitimately stays)
 var failingEffCores = []string{
 	// a self-call in tail position with the wrong number of arguments
@@ -507,7 +513,7 @@ func (g *progGen) failingForm() string {
 			cands = append(cands, fmt.Sprintf("(hset %s a: %s)", h, bad), fmt.Sprintf("(def %s (hash a: %s))", h, bad))
 		}
 		// declarations that fail half-way: whether or not the name was declared before, nothing of it may stay
-		cands = append(cands, "(struct Dog0 [(field Name: string e:0) (field y: nosuchtype e:1)])", "(struct Dog1 [(field y: nosuchtype)])",
+		cands = append(cands, "(struct Dog0 [(field Name: string e:0) (field y: nosuchtype e:1)])", "(struct Dog1 [(field y: nosuchtype)])", "(struct Dog0 [(field x: 5)])", "(struct Dog1 [(field 5)])", "(struct Dog0 [(field Name: string e:0) (field)])", "(struct Dog0 [5])",
 			"(interface Drv0 [(func bad [a:nosuchtype] [])])", "(var v0 nosuchtype)", "(func fn0 [a:nosuchtype] [n:int64] (return 1))",
 			"(method [p: (* Dog0)] bark0 [a:nosuchtype] [n:int64])", "(defmap ranch0 1 2)")
 		if g.havePkg {
@@ -670,6 +676,18 @@ func (g *progGen) topForm() vmForm {
 		if g.r.Chance(0.08) {
 			return vmForm{Text: g.r.Pick(failingEffCores), Fail: true, Eff: true}
 		}
+		if g.r.Chance(0.1) {
+			// a text that stops parsing in the middle: nothing of it runs, nothing of it is left for the next text
+			return vmForm{Text: g.r.Pick(failingParseCores), Fail: true}
+		}
+		if g.r.Chance(0.08) {
+			// a file that does not parse, included or sourced
+			if g.files == nil {
+				g.files = map[string]string{}
+			}
+			g.files["bad9.zy"] = "(def bg9 1)\n(def bx9 (+ 1"
+			return vmForm{Text: g.r.Pick(failingFileCores), Fail: true}
+		}
 		return vmForm{Text: g.failingForm(), Fail: true}
 	case 7: // macro definition (closed template over its argument and literals)
 		name := fmt.Sprintf("m%d", g.r.Intn(2))
@@ -797,6 +815,7 @@ var declForms = []string{
 	"(var vv%d int64) (set vv%d 5) vv%d",
 	"(defmap farm%d) (def fr%d (farm%d a: 1 b: 2)) (:a fr%d)",
 	"(aa%d bb%d = 1 2)",
+	"{ ia%d, ib%d = 3, 4 }", "(def iq%d 5) { ic%d, id%d = iq%d, 1 } ic%d", "(for [(def i 0) (< i 2) (def i (+ i 1))] { ie%d, if%d = i, 2 })", "(+ 1 (first { ig%d, ih%d = 7, 8 }))",
 	"(mdef ma%d mb%d (list 1 2)) ma%d",
 	"{ ia%d = 1; ib%d = ia%d + 2 }",
 	"(def cl%d (let [k 2] (fn [x] (+ x k)))) (cl%d 1) (map cl%d [1 2])",
